@@ -8,6 +8,7 @@
 # pylint doesn't know about __init__ generated with dataclass
 # pylint:disable=unexpected-keyword-arg,no-value-for-parameter
 import builtins
+import copy
 import dataclasses
 import datetime
 import decimal
@@ -1012,8 +1013,15 @@ class DateTime(_BaseDateTime, dtypes.Timestamp):
         data_container: Optional[PandasObject] = None,
     ) -> Union[bool, Iterable[bool]]:
         if self.time_zone_agnostic:
-            self._prepare_check_time_zone_agnostic(
+            # resolve the time zone found in the data on a copy: the dtype
+            # object belongs to the schema and must not remember the data
+            # it has seen.
+            resolved = copy.copy(self)
+            resolved._prepare_check_time_zone_agnostic(
                 pandera_dtype=pandera_dtype, data_container=data_container
+            )
+            return super(DateTime, resolved).check(
+                pandera_dtype, data_container
             )
         return super().check(pandera_dtype, data_container)
 
